@@ -10,52 +10,8 @@ MUT = "/tmp/c18mut"
 
 FIXES = {
     # entails-normalize-first, lift-and-threshold and timelocks-ignore-unsatisfiable were applied to
-    # /repo (51c85bfb, 780a529d in the C11 builder's variant, b588aa3a); their diffs stay in
+    # /repo (51c85bfb, 780a529d in the C11 builder's variant, b588aa3a, 243891a5 = lift-check-timelocks-once); their diffs stay in
     # notes/fixes/ for reference and no longer apply.
-    "lift-check-timelocks-once": [("src/policy/mod.rs", [
-        ("""        // do not lift if there is a possible satisfaction
-        // involving combination of timelocks and heightlocks
-        self.check_timelocks().map_err(Error::ConcretePolicy)?;
-        let ret = match *self {
-""",
-         """        // do not lift if there is a possible satisfaction
-        // involving combination of timelocks and heightlocks.
-        // Checked once, for the whole policy: `check_timelocks` ignores unsatisfiable
-        // branches, so the sub-policies must not be re-checked in isolation.
-        self.check_timelocks().map_err(Error::ConcretePolicy)?;
-        self.lift_unchecked()
-    }
-}
-
-impl<Pk: MiniscriptKey> Concrete<Pk> {
-    /// Lifts without looking at timelock combinations (done once by [`Liftable::lift`]).
-    fn lift_unchecked(&self) -> Result<Semantic<Pk>, Error> {
-        let ret = match *self {
-"""),
-        ("""                    subs.iter().map(Liftable::lift).collect();
-""",
-         """                    subs.iter().map(|sub| sub.lift_unchecked()).collect();
-"""),
-        ("""                    subs.iter().map(|(_p, sub)| sub.lift()).collect();
-""",
-         """                    subs.iter().map(|(_p, sub)| sub.lift_unchecked()).collect();
-"""),
-        ("""                Semantic::Thresh(thresh.translate_ref(|sub| Liftable::lift(sub).map(Arc::new))?)
-            }
-        }
-        .normalized();
-        Ok(ret)
-    }
-}
-impl<Pk: MiniscriptKey> Liftable<Pk> for Arc<Concrete<Pk>> {""",
-         """                Semantic::Thresh(thresh.translate_ref(|sub| sub.lift_unchecked().map(Arc::new))?)
-            }
-        }
-        .normalized();
-        Ok(ret)
-    }
-}
-impl<Pk: MiniscriptKey> Liftable<Pk> for Arc<Concrete<Pk>> {""")])],
     "minimum-n-keys-doc": [("src/policy/semantic.rs", [
         ("""    /// Counts the minimum number of public keys for which signatures could be
     /// used to satisfy the policy.
